@@ -110,6 +110,8 @@ func (s *vC17Sys) Enabled() []vOp {
 		}
 		if s.open[i] {
 			ops = append(ops, vOp{K: "AddRotate", A: i})
+			// a Close whose final flush fails (the first file creation returns EIO)
+			ops = append(ops, vOp{K: "CloseFault", A: i})
 		}
 	}
 	return ops
@@ -226,6 +228,31 @@ func (s *vC17Sys) Apply(op vOp, hist []vOp, check bool) {
 					cause = "removed-successors-lock"
 				}
 				s.c.Violation("second-close-modified-directory", cause, s.cfgS, h(), fmt.Sprintf("before [%s] after [%s]", before, after))
+			}
+		}
+	case "CloseFault":
+		var err error
+		s.env.fs.FailOn("create", 1)
+		s.env.do(func() { err = s.h[op.A].Close() })
+		s.env.fs.ClearFaults()
+		if s.env.dead != "" {
+			break
+		}
+		// whatever Close answered: either the handle is closed now (then it has given up the
+		// directory) or it is still open (then it still owns it); Flush tells which
+		var ferr error
+		s.env.do(func() { ferr = s.h[op.A].Flush() })
+		if s.env.dead != "" {
+			break
+		}
+		stillOpen := ferr == nil
+		if err == nil && stillOpen && check {
+			s.c.Violation("close-returned-nil-but-handle-usable", "", s.cfgS, h(), "Close returned nil and a later Flush on the handle succeeded")
+		}
+		if !stillOpen {
+			s.open[op.A] = false
+			if s.owner == op.A {
+				s.owner = -1
 			}
 		}
 	case "AddRotate":
